@@ -23,6 +23,10 @@ def run(model, rep, tier):
              'layer -- those are decided per leaf test)')
     from . import c09
     c09.visits_every_member(ctx, rep, 'C03.R8')
+    rep.rule('C03.R9', 'no test module is loaded twice: between the walk over the (possibly overlapping) '
+             'search directories and the loading of the files there is a de-duplication keyed by the path')
+    from . import c14
+    c14.r2_once(ctx, rep, R='C03.R9')
     rep.units['cfg'] = ctx.cfg_stats
 
 
@@ -416,7 +420,7 @@ def r6_child_arguments(ctx, rep, R='C03.R6'):
     tests = [n for n in gc_.nodes if n.kind == 'test' and '--resume-layer' in norm(n.ast)]
     pops = [n.id for n in gc_.nodes if n.kind == 'stmt' and any(
         isinstance(c.func, ast.Attribute) and c.func.attr == 'pop' and
-        dotted(c.func.value) == 'self.args' and len(c.args) == 1 and
+        (alias_dotted(fc.node, c.func.value) or dotted(c.func.value)) == 'self.args' and len(c.args) == 1 and
         isinstance(c.args[0], ast.Constant) and c.args[0].value == 1 for c in calls_in(n.ast))]
     wl = [n for n in gc_.nodes if n.kind == 'test' and isinstance(n.stmt, ast.While) and
           '--default' in norm(n.ast)]
